@@ -94,6 +94,7 @@ type c06Frame struct {
 type c06Body struct {
 	mu       sync.Mutex
 	remain   int
+	limit    int      // the scratch buffer length of this upload (0 = not known yet): see Read
 	gate     chan int // n = how many bytes the next Read may return (0 = as many as fit)
 	readDone chan int
 	closed   chan struct{}
@@ -127,6 +128,14 @@ func (b *c06Body) Read(p []byte) (int, error) {
 	}
 	if n > 0 && n < k {
 		k = n
+	}
+	// writeRequestBody takes its scratch buffer from a sync.Pool and uses a pooled buffer at
+	// its full length, which can exceed frameScratchBufferLen (left over from an upload with a
+	// larger frame size). How much one Read hands over must not depend on that: never more than
+	// the scratch length this upload asked for (the function itself is checked by the flow lane
+	// and bridged to the model).
+	if b.limit > 0 && b.limit < k {
+		k = b.limit
 	}
 	b.remain -= k
 	b.mu.Unlock()
@@ -207,6 +216,7 @@ type c06Env struct {
 	initWin      int64 // acknowledged SETTINGS_INITIAL_WINDOW_SIZE
 	connWin      int64 // the client's connection-level send window
 	maxConc      int64 // acknowledged MAX_CONCURRENT_STREAMS (-1 = none)
+	maxFrame     int64 // acknowledged MAX_FRAME_SIZE
 	cInitWin     int64 // advertised by the client
 	cConnWin     int64 // the peer's connection-level send window towards the client
 	cSent        int64 // flow-controlled bytes the peer has sent (data + padding)
@@ -254,7 +264,7 @@ func c06NewEnv(t testing.TB, cfg c06Cfg) (*c06Env, error) {
 		return nil, a.err
 	}
 	e := &c06Env{t: t, cfg: cfg, srv: a.c, frames: make(chan c06Frame, 4096), streams: map[uint32]*c06Stream{},
-		initWin: 65535, connWin: 65535, maxConc: -1, cInitWin: 65535, cConnWin: 65535}
+		initWin: 65535, connWin: 65535, maxConc: -1, maxFrame: 16384, cInitWin: 65535, cConnWin: 65535}
 	e.henc = hpack.NewEncoder(&e.hbuf)
 	e.fr = xhttp2.NewFramer(e.srv, e.srv)
 	e.fr.AllowIllegalReads = true
@@ -400,6 +410,8 @@ func (e *c06Env) handle(f c06Frame) {
 						e.initWin = int64(s.Val)
 					case xhttp2.SettingMaxConcurrentStreams:
 						e.maxConc = int64(s.Val)
+					case xhttp2.SettingMaxFrameSize:
+						e.maxFrame = int64(s.Val)
 					}
 				}
 			}
@@ -510,7 +522,17 @@ func (e *c06Env) sync() {
 func (e *c06Env) settled() bool {
 	for _, id := range e.order {
 		st := e.streams[id]
-		if st.aborted || st.rstSeen || st.dead() || !st.hdrDone || st.body == nil {
+		if st.aborted || st.rstSeen || !st.hdrDone || st.body == nil {
+			continue
+		}
+		if st.dead() {
+			// finished normally (nobody aborted it, no RST_STREAM seen): everything it was handed
+			// has been written, but donec closes in-process before the last frames have crossed
+			// the connection. Wait for them: a barrier PING sent into a connection the client is
+			// about to close (idle close) would reset it and lose them.
+			if st.recvd < st.released || !st.endSeen {
+				return false
+			}
 			continue
 		}
 		if st.released > st.recvd {
@@ -563,9 +585,15 @@ func (e *c06Env) afterOp(forgot bool) {
 		forgot = true // e.g. the last DATA of an upload whose response was already complete
 	}
 	e.deadSeen = dead
-	e.resumePending(forgot)
 	e.woke = false
-	e.collect(e.settled, c06Wait) // a RoundTrip that just went ahead may have more to write
+	if e.pending != nil {
+		// the client must have processed everything the peer sent in this operation before the
+		// waiting RoundTrip is woken and before we ask what it is going to find (a GOAWAY still
+		// in flight would otherwise be seen by us and not by the woken waiter)
+		e.sync()
+		e.resumePending(forgot)
+		e.collect(e.settled, c06Wait) // a RoundTrip that just went ahead may have more to write
+	}
 	e.sync()
 	if (e.goAwaySent || e.noReuse) && forgot && e.liveCount() == 0 && !e.closed {
 		// closeOnIdle: the client closes the connection with its last stream
@@ -671,6 +699,15 @@ func (e *c06Env) startRoundTrip(bodyLen int, known bool, padLen int) *c06Stream 
 
 func (e *c06Env) register(st *c06Stream, cs *clientStream) {
 	st.cs = cs
+	if st.body != nil {
+		// writeRequestBody sizes its scratch buffer from the peer's MAX_FRAME_SIZE right after the
+		// header write; by the peer's books that is the last acknowledged value (the script is
+		// quiescent around an open, so nothing is in flight)
+		mf := int(e.maxFrame)
+		st.body.mu.Lock()
+		st.body.limit = cs.frameScratchBufferLen(mf)
+		st.body.mu.Unlock()
+	}
 	st.id = cs.ID
 	st.win = e.initWin
 	st.cwin = e.cInitWin
@@ -683,28 +720,38 @@ func (st *c06Stream) openToken() string {
 	return fmt.Sprintf("o:%d:%d:%s", st.hdrLen, st.total, c06B(st.known))
 }
 
+// slotLimit is MAX_CONCURRENT_STREAMS as the client must see it by the peer's own books: the
+// value of the last acknowledged SETTINGS frame that carried one, else the client's defaults
+// (100 before the first SETTINGS frame, 1000 after a first SETTINGS frame without one).
+func (e *c06Env) slotLimit() int64 {
+	if e.maxConc >= 0 {
+		return e.maxConc
+	}
+	if e.ackSeen > 0 {
+		return 1000
+	}
+	return 100
+}
+
 // open returns the op token ("o:<hdrLen>:<bodyLen>:<known>").
 func (e *c06Env) open(bodyLen int, known bool, padLen int) string {
-	bufPoolsReset()
 	st := e.startRoundTrip(bodyLen, known, padLen)
 	e.opened = append(e.opened, st)
-	deadline := time.Now().Add(c06Wait)
-	for st.cs == nil && !st.gotRes {
-		select {
-		case cs := <-st.stCh:
-			e.register(st, cs)
-		case r := <-st.respCh:
-			st.gotRes, st.res = true, r.res // refused: errClientConnUnusable
-		case <-time.After(time.Millisecond):
-			e.cc.mu.Lock()
-			p := e.cc.pendingRequests
-			e.cc.mu.Unlock()
-			if p > 0 {
-				e.pending = st
-			}
-		}
-		if e.pending != nil || time.Now().After(deadline) {
-			break
+	// strict mode at the stream limit: the RoundTrip has to wait for a slot. That is what the
+	// peer's books say must happen; a client that goes ahead anyway shows up at once.
+	mustWait := e.cfg.strict && int64(e.liveCount()) >= e.slotLimit() && !e.goAwaySent && !e.noReuse && !e.closed
+	patience := c06Wait
+	if mustWait {
+		patience = 5 * time.Millisecond
+	}
+	select {
+	case cs := <-st.stCh:
+		e.register(st, cs)
+	case r := <-st.respCh:
+		st.gotRes, st.res = true, r.res // refused: errClientConnUnusable
+	case <-time.After(patience):
+		if mustWait {
+			e.pending = st
 		}
 	}
 	if st.cs != nil {
@@ -717,32 +764,33 @@ func (e *c06Env) open(bodyLen int, known bool, padLen int) string {
 	return st.openToken()
 }
 
-// resumePending: a RoundTrip blocked on the stream limit proceeds when a slot is free.
-func (e *c06Env) resumePending(forgot bool) {
+// resumePending: a RoundTrip blocked on the stream limit (strict mode) sleeps on cc.cond. Which
+// client operations happen to broadcast on that condition variable is not part of the property
+// (and a wake-up may come from anywhere, Body.Close of a long finished stream included), so the
+// lane does not try to predict it: after EVERY operation it broadcasts itself (a spurious wake-up,
+// legal for every cond.Wait loop) and then reads, under cc.mu, what the woken waiter is going to
+// find: no longer usable / a free slot => it leaves awaitOpenSlotForStreamLocked and we wait for
+// it; otherwise it goes back to sleep. The model does the same (`scriptStep`: op, `wake`, pump),
+// so the step in which the waiting request goes ahead is determined.
+func (e *c06Env) resumePending(bool) {
 	st := e.pending
-	if st == nil || !(e.woke || forgot) {
+	if st == nil {
 		return
 	}
-	// is the RoundTrip still blocked in awaitOpenSlotForStreamLocked? It is counted in
-	// pendingRequests while it waits; a woken waiter that finds a free slot leaves at once.
-	blocked := true
-	for i := 0; i < 40 && blocked; i++ {
-		e.cc.mu.Lock()
-		waiting := e.cc.pendingRequests > 0
-		free := int64(len(e.cc.streams)) < int64(e.cc.maxConcurrentStreams)
-		unusable := e.cc.closed || e.cc.goAway != nil || e.cc.doNotReuse
-		e.cc.mu.Unlock()
-		if !waiting || free || unusable || e.closed {
-			blocked = false
-		} else if i < 39 {
-			time.Sleep(250 * time.Microsecond)
-		}
-	}
-	if blocked {
+	e.cc.mu.Lock()
+	e.cc.cond.Broadcast()
+	e.cc.mu.Unlock()
+	// by the peer's books: a slot is free (whether the waiter has already taken it or is about
+	// to), or the connection can take no new request any more (the client's own public answer)
+	leaves := int64(e.liveCount()) < e.slotLimit() || !e.cc.CanTakeNewRequest()
+	if !leaves && !e.closed {
 		return
 	}
 	deadline := time.Now().Add(c06Wait)
 	for time.Now().Before(deadline) {
+		if e.pending == nil { // registered by the frame handler meanwhile
+			return
+		}
 		select {
 		case cs := <-st.stCh:
 			e.pending = nil
@@ -1016,10 +1064,4 @@ func (e *c06Env) peerData(id uint32, n, pad int, end bool) string {
 	}
 	e.afterOp(forgot)
 	return fmt.Sprintf("pd:%d:%d:%d:%s", id, n, pad, c06B(end))
-}
-
-// bufPoolsReset empties the scratch-buffer pools so that the chunking of a request body does
-// not depend on buffers left over from earlier streams.
-func bufPoolsReset() {
-	bufPools = [7]sync.Pool{}
 }
